@@ -119,6 +119,16 @@ def check_batch(o):
     templates = {"PCAModel(masked images)": templ_m, "PCAModel(images)": templ_i}
     for t, templ in templates.items():
         models.append((t, PCAModel([templ.from_vector(x) for x in X], centre=centre)))
+    # the decomposition is scale-equivariant: the same data in other units (x 1e-6, x 1e4) has the same number of components,
+    # the same subspaces and eigenvalues scaled by the square of the unit (both code paths)
+    base = PCAVectorModel(X.copy(), centre=centre, inplace=False)
+    for unit in (1e-6, 1e4):
+        mu = PCAVectorModel(X * unit, centre=centre, inplace=False)
+        ok = mu.n_components == base.n_components and np.allclose(mu._eigenvalues, base._eigenvalues * unit * unit, rtol=1e-7, atol=0) and \
+            np.allclose(np.abs(mu._components @ base._components.T), np.eye(base.n_components), atol=1e-6) and np.allclose(mu._mean, base._mean * unit, rtol=1e-9, atol=0)
+        if not ok:
+            bad.append(("the model of the same data in units of %g has %d components (eigenvalues %s), the model in units of 1 has %d (%s)" % (
+                unit, mu.n_components, (mu._eigenvalues / unit / unit).round(6).tolist(), base.n_components, base._eigenvalues.round(6).tolist()), {}, None))
     for tag, m in models:
         r = _check_model(m, n, mean, C, tag)
         if r:
@@ -158,6 +168,14 @@ def check_batch(o):
             m.n_active_components = j
             if m.components.shape[0] != j or len(m.eigenvalues) != j:
                 bad.append((tag + ": component / eigenvalue counts inconsistent after n_active_components = %d" % j, {}, None))
+            # with j active components project_out removes exactly what reconstruct keeps: residual + reconstruction = the input
+            yj = rng.randint(-5, 6, size=X.shape[1]).astype(float)
+            rj, pj = vec(m.reconstruct(as_obj(yj))), vec(m.project_out(as_obj(yj)))
+            if not L.close(pj + rj, yj, 1e-8) or not L.close(m.components @ pj, np.zeros(j), 1e-8):
+                bad.append((tag + ": project_out is not the complement of reconstruct with %d of %d components active" % (j, k), {}, None))
+            wj = rng.randint(-3, 4, size=j).astype(float)
+            if not L.close(m.project(m.instance(wj)), wj, 1e-8):
+                bad.append((tag + ": project(instance(w)) != w with %d of %d components active" % (j, k), {}, None))
             disc = m.noise_variance() * (k - j) if j < k else 0.0
             if abs(m.original_variance() - orig) > 1e-9 * max(1, orig) or abs(m.variance() + disc - orig) > 1e-8 * max(1, orig):
                 bad.append((tag + ": kept + discarded variance != original variance", {"j": j}, None))
